@@ -4,10 +4,17 @@ reading of the specification used as the property oracle on the implementation."
 import itertools
 import math
 import os
+import re
+import struct
+import unicodedata
+from decimal import Decimal
 import common
 
 TRUSTED_EXTRA = [
-    "C13: memchr-rs modelled by its specification; str::split / str::trim / chars() are std functions modelled by their specification (split on leftmost non-overlapping occurrences; Unicode White_Space); to_uppercase/to_lowercase/to_number are std calls with no model (not covered)",
+    "C13: memchr-rs modelled by its specification; str::split / str::trim / chars() are std functions modelled by their specification (split on leftmost non-overlapping occurrences; Unicode White_Space)",
+    "C13: to_number: std's dec2flt (fast path, Eisel-Lemire, big-decimal fallback) is modelled by its grammar (transcribed) and by correct rounding of the exact decimal (theories/NumParse.v); that std computes the correctly rounded value is validated by correspondence against rustc, not proved; numerals whose exponent literal is >= 65536 AND that are longer than 65 000 bytes are outside the validated domain (std saturates the exponent while scanning)",
+    "C13: to_uppercase/to_lowercase: the mapping tables are regenerated from the toolchain's library/core/src/unicode/unicode_data.rs by translator/gen_unicode.py and the lookup is transcribed (theories/CaseMap.v); validated against rustc on every scalar value on each run",
+    "C13: Python oracle for case mapping: per-character str.upper()/str.lower() of CPython's unicodedata (an older Unicode version than rustc's); used as the reference on every code point where it is defined for both versions; differences are accepted only when the source or an image character is unassigned in Python's Unicode version (listed in the evidence under extra.case_python_version_diffs)",
 ]
 ASSUMPTIONS = ["inputs are valid UTF-8 (they are &str in the implementation)"]
 
@@ -18,10 +25,18 @@ def hx(b):
     return b.hex() if b else "-"
 
 
-def spec(case):
+def spec(case, caseref=None):
     """Python reading of the documented behaviour. Returns the canonical output line."""
     t = case.split()
     un = lambda s: b"" if s == "-" else bytes.fromhex(s)
+    if t[0] == "tonum":
+        return "num " + spec_to_number(un(t[1]))
+    if t[0] == "roundtrip":
+        x = struct.unpack(">d", bytes.fromhex(t[1]))[0]
+        return "txt %s num %s" % (hx(display_f64(x).encode()), f64_bits(x))
+    if t[0] in ("upper", "lower"):
+        ref = caseref or CaseRef()
+        return "str " + hx(ref.map_text(un(t[1]).decode(), t[0] == "upper").encode())
     if t[0] == "find":
         i = un(t[1]).find(un(t[2]))
         return "found %d" % i if i >= 0 else "notfound"
@@ -73,6 +88,202 @@ def spec(case):
     raise ValueError(case)
 
 
+# ----------------------------------------------------------------------------
+# to_number: explicit reading of the grammar of Rust's `f64::from_str` (on bytes, so that no
+# Unicode digit / case-folding rule of Python's `re` or `float` can leak in), then the value by
+# Python's correctly rounded `float()` of the (pure ASCII, already validated) numeral.
+_NUM = re.compile(rb"\A[+-]?(?:(?:[0-9]+(?:\.[0-9]*)?|\.[0-9]+)(?:[eE][+-]?[0-9]+)?)\Z")
+_INF = re.compile(rb"\A[+-]?(?:[iI][nN][fF]|[iI][nN][fF][iI][nN][iI][tT][yY])\Z")
+_NAN = re.compile(rb"\A[+-]?[nN][aA][nN]\Z")
+NAN_BITS = "7ff8000000000000"
+
+
+def f64_bits(x):
+    if x != x:
+        return NAN_BITS
+    return "%016x" % struct.unpack(">Q", struct.pack(">d", x))[0]
+
+
+def spec_to_number(b):
+    if _NUM.match(b):
+        return f64_bits(float(b.decode("ascii")))
+    if _INF.match(b):
+        return f64_bits(float("-inf") if b[:1] == b"-" else float("inf"))
+    return NAN_BITS     # "nan" in any case, and every parse error
+
+
+def display_f64(x):
+    """Rust's `{}` for f64: the shortest digit string that parses back to x, the candidate nearest to
+    the exact value when two of that length do (an exact tie goes up in magnitude — Rust's
+    Grisu/Dragon, unlike Python's repr which breaks that tie to even), positional notation without
+    exponent and without a trailing `.0`.  The digit count comes from repr(), the choice from exact
+    decimal arithmetic and from float() as the parse-back test."""
+    if x != x:
+        return "NaN"
+    if x in (float("inf"), float("-inf")):
+        return "inf" if x > 0 else "-inf"
+    if x == 0:
+        return "-0" if math.copysign(1.0, x) < 0 else "0"
+    import decimal
+    ctx = decimal.Context(prec=1200, rounding=decimal.ROUND_DOWN)
+    ax = abs(x)
+    exact = Decimal(ax)
+    r = repr(ax)
+    mant = r.split("e")[0].replace(".", "").lstrip("0").rstrip("0") or "0"
+    n = len(mant)
+    k = exact.adjusted()                       # position of the first significant digit
+    unit = Decimal(1).scaleb(k - n + 1, ctx)
+    lo = (exact / unit).to_integral_value(rounding=decimal.ROUND_FLOOR) * unit
+    cands = [c for c in (lo, lo + unit) if c > 0 and float(c) == ax]
+    if len(cands) == 2:
+        dl, dh = exact - cands[0], cands[1] - exact
+        best = cands[0] if dl < dh else cands[1]
+    elif cands:
+        best = cands[0]
+    else:
+        best = Decimal(r)
+    t = format(best, "f")
+    if "." in t:
+        t = t.rstrip("0").rstrip(".")
+    return ("-" if x < 0 else "") + t
+
+
+# ----------------------------------------------------------------------------
+# case mapping: per-character reference from CPython's unicodedata, reconciled with the full
+# sweep of the implementation (see TRUSTED_EXTRA)
+def py_assigned(cp):
+    return unicodedata.category(chr(cp)) != "Cn"
+
+
+def py_case(cp):
+    c = chr(cp)
+    return [ord(x) for x in c.upper()], [ord(x) for x in c.lower()]
+
+
+class CaseRef:
+    """Expected per-code-point mappings: Python's, except on code points where the implementation
+    differs only because of characters unassigned in Python's Unicode version."""
+    def __init__(self):
+        self.over_u, self.over_l = {}, {}
+        self.diffs = []
+
+    def upper(self, cp):
+        return self.over_u.get(cp) or py_case(cp)[0]
+
+    def lower(self, cp):
+        return self.over_l.get(cp) or py_case(cp)[1]
+
+    def map_text(self, text, up):
+        out = []
+        for ch in text:
+            out += self.upper(ord(ch)) if up else self.lower(ord(ch))
+        return "".join(chr(c) for c in out)
+
+
+def parse_casemap_line(line):
+    """'cm cp:u.u:l ...' -> {cp: (upper seq, lower seq)}"""
+    d = {}
+    for ent in line.split()[1:]:
+        cp, u, l = ent.split(":")
+        d[int(cp, 16)] = ([int(x, 16) for x in u.split(".")], [int(x, 16) for x in l.split(".")])
+    return d
+
+
+def excusable(cp, want, got):
+    """A difference between Python's (older Unicode) and the implementation's mapping that is
+    explained by the version gap: the source or an image character did not exist for Python."""
+    return (not py_assigned(cp)) or any(not py_assigned(c) for c in got)
+
+
+def casemap_spec_line(lo, hi):
+    o = ["cm"]
+    for cp in range(lo, hi):
+        if 0xD800 <= cp <= 0xDFFF:
+            continue
+        u, l = py_case(cp)
+        if u != [cp] or l != [cp]:
+            o.append("%x:%s:%s" % (cp, ".".join("%x" % c for c in u), ".".join("%x" % c for c in l)))
+    return " ".join(o)
+
+
+CASE_CHUNK = 0x4000
+
+
+def run_case_sweep(env, release, model=True):
+    """Full sweep 0..0x10FFFF through the built-ins (and the model).  Returns (CaseRef, failures,
+    disagreements, stats)."""
+    cases = ["casemap %d %d" % (lo, min(lo + CASE_CHUNK, 0x110000)) for lo in range(0, 0x110000, CASE_CHUNK)]
+    # the implementation is swept completely on every run; the extracted model completely in the thorough
+    # tier, and in the quick tier on planes 0-1 (where every mapping lives) plus a random sample of the
+    # chunks of planes 2-16 (the model is ~16 us per code point there: 15 s for the identity part)
+    if env.tier == "quick":
+        hi_chunks = [c for c in cases if int(c.split()[1]) >= 0x20000]
+        mcases = [c for c in cases if int(c.split()[1]) < 0x20000] + env.rng.sample(hi_chunks, 6)
+    else:
+        mcases = cases
+    inp = os.path.join(env.work, "casefull%d.in" % int(release))
+    outp = os.path.join(env.work, "casefull%d.impl" % int(release))
+    open(inp, "w").write("\n".join(cases) + "\n")
+    rc, o = common.sh([common.harness_bin(release), "strlib", inp, outp], timeout=600)
+    li = open(outp).read().splitlines() if rc == 0 and os.path.exists(outp) else None
+    err = o[-300:] if rc else ""
+    lm_by_case = {}
+    if model and li is not None:
+        li2, lm, err2 = common.run_both(env, "case%d" % int(release), "strlib", "\n".join(mcases) + "\n", [], release, timeout=900)
+        if lm is not None and len(lm) == len(mcases):
+            lm_by_case = dict(zip(mcases, lm))
+        else:
+            err = err2
+    ref = CaseRef()
+    failures, disagreements = [], []
+    stats = {"code_points": 0x110000 - 0x800, "upper_non_identity": 0, "lower_non_identity": 0, "multi_char": 0,
+             "python_agrees": 0, "version_diffs": 0, "model_lines_equal": 0, "model_chunks": len(mcases), "chunks": len(cases)}
+    if li is None:
+        failures.append({"key": "casemap-crash", "case": "casemap 0 1114112", "observed": err[-300:]})
+        return ref, failures, disagreements, stats
+    for idx, c in enumerate(cases):
+        lo, hi = int(c.split()[1]), int(c.split()[2])
+        got = parse_casemap_line(li[idx])
+        for cp in range(lo, hi):
+            if 0xD800 <= cp <= 0xDFFF:
+                continue
+            wu, wl = py_case(cp)
+            gu, gl = got.get(cp, ([cp], [cp]))
+            if gu != [cp]:
+                stats["upper_non_identity"] += 1
+            if gl != [cp]:
+                stats["lower_non_identity"] += 1
+            if len(gu) > 1 or len(gl) > 1:
+                stats["multi_char"] += 1
+            for up, w, g in ((True, wu, gu), (False, wl, gl)):
+                if w == g:
+                    continue
+                if excusable(cp, w, g):
+                    (ref.over_u if up else ref.over_l)[cp] = g
+                    ref.diffs.append("%s U+%04X: python %s, implementation %s" % (
+                        "upper" if up else "lower", cp, ".".join("%04X" % x for x in w), ".".join("%04X" % x for x in g)))
+                    stats["version_diffs"] += 1
+                else:
+                    failures.append({"key": "casemap:%s:%x" % ("u" if up else "l", cp),
+                                     "case": "%s %s" % ("upper" if up else "lower", hx(chr(cp).encode())),
+                                     "observed": "str " + hx("".join(chr(x) for x in g).encode()),
+                                     "expected_by_spec": "str " + hx("".join(chr(x) for x in w).encode()),
+                                     "profile": "release" if release else "debug"})
+        if model and c in mcases:
+            if c not in lm_by_case:
+                if not disagreements:
+                    disagreements.append({"stream": "casemap", "error": err[-300:] or "model output missing"})
+            elif lm_by_case[c] != li[idx]:
+                a, b = parse_casemap_line(li[idx]), parse_casemap_line(lm_by_case[c])
+                bad = sorted(k for k in set(a) | set(b) if a.get(k) != b.get(k))[:3]
+                disagreements.append({"stream": "casemap", "case": c,
+                                      "first_differences": ["U+%04X impl %s model %s" % (k, a.get(k), b.get(k)) for k in bad]})
+            else:
+                stats["model_lines_equal"] += 1
+    stats["python_agrees"] = stats["code_points"] * 2 - stats["version_diffs"] - len(failures)
+    return ref, failures, disagreements, stats
+
+
 def words(alpha, maxlen):
     for k in range(maxlen + 1):
         for w in itertools.product(alpha, repeat=k):
@@ -107,6 +318,184 @@ def long_needles(rng, count):
         else:
             h = pre + (n[:-1].decode("utf-8", "ignore").encode()) * 2 + post
         out.append((h, n))
+    return out
+
+
+# ----------------------------------------------------------------------------
+# numerals for to_number
+def exact_decimal(n, k):
+    """n * 2^k (n > 0 integer) as (digit string, position of the decimal point from the left)."""
+    if k >= 0:
+        d = str(n << k)
+        return d, len(d)
+    d = str(n * 5 ** (-k))
+    return d, len(d) + k
+
+
+def render(digits, point, rng, style=None):
+    """digits * 10^(point - len(digits)) written positionally or with an exponent."""
+    style = style or rng.choice(["plain", "sci", "sci", "shift"])
+    if style == "plain" and -40 < point < len(digits) + 40:
+        if point <= 0:
+            return "0." + "0" * (-point) + digits
+        if point >= len(digits):
+            return digits + "0" * (point - len(digits)) + rng.choice(["", ".", ".0"])
+        return digits[:point] + "." + digits[point:]
+    if style == "shift":
+        # decimal point somewhere inside the digits, exponent compensates
+        cut = rng.randint(0, len(digits))
+        e = point - cut
+        body = (digits[:cut] or rng.choice(["", "0"])) + "." + digits[cut:] if cut < len(digits) or rng.random() < 0.5 else digits
+        if body in ("", "."):
+            body = "0."
+        if body == digits:
+            e = point - len(digits)
+        return body + rng.choice(["e", "E"]) + rng.choice(["", "+"] if e >= 0 else [""]) + str(e)
+    e = point - 1
+    body = digits[0] + ("." + digits[1:] if len(digits) > 1 else rng.choice(["", ".", ".0"]))
+    return body + rng.choice(["e", "E"]) + (rng.choice(["", "+"]) if e >= 0 else "") + str(e)
+
+
+def random_double(rng):
+    r = rng.random()
+    if r < 0.25:
+        ex = rng.randint(1, 2046)
+    elif r < 0.5:
+        ex = rng.choice([0, 0, 1, 2, 1022, 1023, 1024, 1075, 1076, 2045, 2046, rng.randint(960, 1100)])
+    elif r < 0.75:
+        ex = rng.randint(1023 - 70, 1023 + 70)
+    else:
+        ex = rng.randint(1023 - 330, 1023 + 330)
+    mant = rng.choice([0, 1, 2 ** 52 - 1, 2 ** 51, rng.getrandbits(52), rng.getrandbits(52), rng.getrandbits(20) << 32])
+    return (ex << 52) | mant
+
+
+JUNK = ["", "+", "-", ".", "+.", "-.", "e5", "E5", ".e5", "1e", "1e+", "1e-", "1E", "1.2.3", "1..2", "1_000", "1_0.5", " 1", "1 ", "\t1",
+        "1\n", "0x10", "0b1", "1f", "1f64", "1d5", "1e5.5", "1e5e5", "1,5", "--1", "+-1", "-+1", "++1", "1-", "1+", "1e--5", "1e+-5",
+        "inf", "INF", "Inf", "iNf", "+inf", "-inf", "-INF", "infinity", "INFINITY", "Infinity", "iNfInItY", "+infinity", "-Infinity",
+        "in", "infi", "infin", "infinit", "infinityy", "infinity ", " inf", "inf ", "inff", "i", "nan", "NaN", "NAN", "nAn", "+nan", "-nan",
+        "-NaN", "na", "nann", "nan ", "nan(0)", "nan0", "snan", "+ inf", "- 1", "1 e5", "1e 5", "٣", "١٢٣", "1٣", "１２", "½", "1e٣",
+        "ınf", "İnf", "inſ", "ⁿan", "ℕan", "in\x46", "\x49nf", "iNF", ")NF", "i.f", "In&", "n!n", "\x00", "1\x00", "0", "-0", "+0", "00",
+        "0.", ".0", "-.0", "+0.e0", "0e0", "-0e-0", "0e99999999999999999999", "0e-99999999999999999999", "1e99999999999999999999",
+        "1e-99999999999999999999", "1e65535", "1e65536", "1e-65536", "1e655360", "123e-65540", "1e0000000000000000000000005",
+        "1e+0000000000000000000000005", "1e-0000000000000000000000005", "0." + "0" * 400 + "1e401", "1" + "0" * 400 + "e-400",
+        "0" * 500 + "7", "0" * 500 + ".5", "9007199254740993", "9007199254740992.999999999999999999999", "9007199254740993.0000000000000001",
+        "18446744073709551615", "18446744073709551616", "18446744073709551617e-19", "184467440737095516150", "99999999999999999999",
+        "1.7976931348623157e308", "1.7976931348623158e308", "1.7976931348623159e308", "1.797693134862315807e308", "1.797693134862315808e308",
+        "17976931348623157" + "0" * 292, "17976931348623158" + "0" * 292 + ".0", "4.9e-324", "5e-324", "2.4703282292062327e-324",
+        "2.4703282292062328e-324", "2.47032822920623272e-324", "2.4703282292062327208751865e-324", "2.4703282292062327208751866e-324",
+        "2e-324", "3e-324", "2.2250738585072014e-308", "2.2250738585072011e-308", "2.2250738585072012e-308", "2.225073858507201e-308",
+        "1e22", "1e23", "8.5e22", "1.0e23", "9e15", "123456789012345678e-18", "0.1", "0.2", "0.3", "0.30000000000000004", "1e-7",
+        "6.0221409e+23", "1.e5", "1.E+5", ".5e1", "5.e-1", "1e308", "1e309", "-1e309", "1e-323", "1e-324", "-1e-324", "1e-400", "-1e-400"]
+
+
+def tonum_cases(rng, count):
+    out = list(JUNK)
+    # 2^1024 - 2^970 (half-way to overflow) and 2^-1075 (half of the least subnormal), exactly and just around
+    for n, k in ((2 ** 54 - 1, 970), (1, -1075), (3, -1075), (2 ** 53 - 1, -1075), (2 ** 53 + 1, -1075)):
+        d, pt = exact_decimal(n, k)
+        for digs in (d, d + "1", d[:-1] + str(int(d[-1]) - 1) + "9"):
+            out.append(render(digs, pt, rng, "sci"))
+            out.append(render(digs, pt, rng, "plain" if pt > -40 else "shift"))
+    while len(out) < count:
+        r = rng.random()
+        sign = rng.choice(["", "", "-", "+"])
+        if r < 0.30:
+            # any numeral of the grammar (leading zeros, empty parts, long parts)
+            ni = rng.choice([0, 1, 1, 2, 3, 8, 16, 19, 20, 25, rng.randint(0, 40)])
+            nf = rng.choice([0, 0, 1, 2, 5, 15, 17, 19, 20, 30, rng.randint(0, 40)])
+            ip = "".join(rng.choice("0123456789") for _ in range(ni))
+            fp = "".join(rng.choice("0123456789") for _ in range(nf))
+            if rng.random() < 0.15:
+                ip = "0" * rng.randint(1, 5) + ip
+            body = ip + rng.choice([".", "."] if nf else ["", "", "."]) + fp if (nf or rng.random() < 0.5) else ip
+            if rng.random() < 0.6:
+                body += rng.choice("eE") + rng.choice(["", "+", "-", "-"]) + rng.choice(
+                    [str(rng.randint(0, 30)), str(rng.randint(0, 400)), "0" * rng.randint(1, 3) + str(rng.randint(0, 99)), str(rng.randint(280, 345))])
+            out.append(sign + body)       # may be malformed (no digits at all): then NaN is the expectation
+        elif r < 0.60:
+            # exact half-way points between adjacent doubles, and the decimals just above / below
+            b = random_double(rng) & (2 ** 63 - 1)
+            ex, mant = b >> 52, b & (2 ** 52 - 1)
+            q = rng.random()          # long expansions are expensive for the extracted model: keep them a minority
+            if q < 0.75:
+                ex = rng.randint(1023 - 60, 1023 + 60)
+            elif q < 0.9:
+                ex = rng.randint(1023 - 330, 1023 + 330)
+            if ex == 2047:
+                continue
+            m, e = (mant, -1074) if ex == 0 else (mant + 2 ** 52, ex - 1075)
+            d, pt = exact_decimal(2 * m + 1, e - 1)
+            which = rng.random()
+            if which < 0.4:
+                digs = d
+            elif which < 0.7:
+                digs = d + "0" * rng.randint(0, 30) + "1"
+            else:
+                digs = d[:-1] + str(int(d[-1]) - 1) + "9" * rng.randint(1, 30)
+            if rng.random() < 0.3 and len(digs) > 25:
+                # truncated / rounded versions of the long expansion
+                digs = digs[:rng.choice([17, 18, 19, 20, 21, 25, 40, 100, 766, 767, 768, 769, 770])]
+            out.append(sign + render(digs, pt, rng))
+        elif r < 0.85:
+            # shortest / 17-digit renderings of doubles and their neighbours in the last digit
+            b = random_double(rng) & (2 ** 63 - 1)
+            if (b >> 52) == 2047:
+                continue
+            x = struct.unpack(">d", struct.pack(">Q", b))[0]
+            t = rng.choice([repr(x), "%.17g" % x, "%.16e" % x, "%.20e" % x, display_f64(x), "%.15g" % x])
+            if rng.random() < 0.3:
+                # perturb one digit
+                ds = [i for i, ch in enumerate(t.split("e")[0]) if ch.isdigit()]
+                if ds:
+                    i = rng.choice(ds[-3:])
+                    t = t[:i] + rng.choice("0123456789") + t[i + 1:]
+            out.append(sign + t)
+        elif r < 0.93:
+            # integers around 2^53 .. 2^64 and powers of ten
+            n = rng.choice([2 ** 53, 2 ** 63, 2 ** 64, 10 ** 19, 10 ** 22, 10 ** 23, 2 ** rng.randint(53, 200), 10 ** rng.randint(15, 40)]) + rng.randint(-3, 3)
+            t = str(n)
+            if rng.random() < 0.3:
+                t += rng.choice([".", ".0", ".5", ".49999999999999999999", ".50000000000000000001", "e0", "e-1", "e1"])
+            out.append(sign + t)
+        else:
+            # mutate a well-formed numeral into (mostly) junk
+            t = rng.choice(JUNK + ["12.5e3", "-7.25", "1e10", "infinity", "nan"])
+            if t:
+                i = rng.randrange(len(t))
+                t = t[:i] + rng.choice(["", "_", " ", "e", ".", "-", "+", "x", "0", "E", "é", "∞", "n", "I"]) + t[i + (rng.random() < 0.5):]
+            out.append(t)
+    return out
+
+
+CASE_POOL = ["", "hello", "HELLO World 123", "straße", "ŉ", "ǰ", "İstanbul", "ıi", "ΑΣ", "ΟΔΥΣΣΕΥΣ", "ὈΔΥΣΣΕΎΣ", "ς", "Σ", "σς", "ǅ", "ǆǄ", "ﬁ", "ﬃ",
+             "ΐ", "ᾳ", "ᾼ", "ῼ", "ẞ", "ß", "ƛ", "ꟊ", "Ꟊ", "ⱥ", "Ⱥ", "𐐀", "𐐨", "𞤀𞤢", "𑢠", "ǈ", "日本語", "a🌎b", "Ⅷ", "ⓐ", "µ", "ÿ", "ſ", "K", "Å",
+             "ͅ", "ά", "և", "ﬓ", "ẘ", "ṡ", "Ᲊ", "ᲊ", "Ა", "ა", "ꭰ", "Ꭰ", "ᏸ", "Ᏸ", "ԱԲ", "\u0000", "a\u0000b"]
+
+
+def case_strings(rng, count):
+    out = list(CASE_POOL)
+    alpha = [c for s in CASE_POOL for c in s] + [chr(c) for c in (0xB5, 0xDF, 0xFF, 0x130, 0x131, 0x149, 0x17F, 0x1F0, 0x390, 0x3A3, 0x3C2, 0x3C3,
+                                                                    0x587, 0x1E96, 0x1E9E, 0x1F80, 0x1FB3, 0x1FE4, 0x2126, 0x212A, 0x212B, 0xFB00, 0xFB17,
+                                                                    0x10400, 0x10428, 0x1E900, 0x1E922, 0x16E40, 0x16E60, 0x10FFFF, 0x7F, 0x80, 0x7FF, 0x800, 0xFFFF, 0x10000)]
+    while len(out) < count:
+        n = rng.choice([1, 2, 3, 5, 8, 20])
+        t = ""
+        for _ in range(n):
+            r = rng.random()
+            if r < 0.5:
+                t += rng.choice(alpha)
+            elif r < 0.7:
+                t += chr(rng.randint(0x20, 0x7E))
+            else:
+                cp = rng.choice([rng.randint(0xA0, 0x24F), rng.randint(0x370, 0x58F), rng.randint(0x10A0, 0x10FF), rng.randint(0x1C80, 0x1CBF),
+                                 rng.randint(0x1E00, 0x1FFF), rng.randint(0x2C00, 0x2D2F), rng.randint(0xA640, 0xA7FF), rng.randint(0xFB00, 0xFB17),
+                                 rng.randint(0xFF21, 0xFF5A), rng.randint(0x10400, 0x104FF), rng.randint(0x10C80, 0x10CFF), rng.randint(0x1E900, 0x1E943),
+                                 rng.randint(0, 0x10FFFF)])
+                if 0xD800 <= cp <= 0xDFFF:
+                    continue
+                t += chr(cp)
+        out.append(t)
     return out
 
 
@@ -161,6 +550,20 @@ def gen_cases(env):
     for cp in sorted(WS) + [0x1c, 0x1f, 0x200b, 0x180e, 0xfeff]:
         cases.append("trim %s" % hx((chr(cp) + "x" + chr(cp)).encode()))
     cases.append("ws 0 1114112")
+    # to_number, Display -> to_number, case mapping of strings
+    for t in tonum_cases(rng, 4000 if quick else 130000):
+        cases.append("tonum %s" % hx(t.encode()))
+    for _ in range(250 if quick else 15000):
+        b = random_double(rng) | (rng.getrandbits(1) << 63)
+        cases.append("roundtrip %016x" % b)
+    for b in (0, 1 << 63, 1, 2 ** 52 - 1, 2 ** 52, 0x7FEFFFFFFFFFFFFF, 0x7FF0000000000000, 0xFFF0000000000000, 0x7FF8000000000000,
+              0x4340000000000000, 0x433FFFFFFFFFFFFF, 0x3FF0000000000000, 0x3FB999999999999A, 0x44B52D02C7E14AF6, 0x3E7AD7F29ABCAF48):
+        cases.append("roundtrip %016x" % b)
+    for t in case_strings(rng, 1500 if quick else 30000):
+        cases.append("%s %s" % (rng.choice(["upper", "lower"]), hx(t.encode())))
+        if rng.random() < 0.3:
+            cases.append("%s %s" % ("upper", hx(t.encode())))
+            cases.append("%s %s" % ("lower", hx(t.encode())))
     return cases, exhaustive_find
 
 
@@ -193,7 +596,18 @@ def correspond(env, searching=False, model=True):
     nontrivial = set()
     evaluations = 0
     kinds = {}
+    case_stats = {}
+    caseref = None
     for release in profiles:
+        caseref, cf, cd, case_stats = run_case_sweep(env, release, model)
+        for f in cf:
+            if not any(g["key"] == f["key"] for g in failures):
+                failures.append(f)
+        disagreements += cd
+        evaluations += 0x110000 // CASE_CHUNK
+        kinds["casemap"] = kinds.get("casemap", 0) + 0x110000 // CASE_CHUNK
+        if not cf and not cd:
+            nontrivial.add(common.chash("casemap-sweep upper %d lower %d" % (case_stats["upper_non_identity"], case_stats["lower_non_identity"])))
         shard = 40000
         for s0 in range(0, len(cases), shard):
             part = cases[s0:s0 + shard]
@@ -203,7 +617,7 @@ def correspond(env, searching=False, model=True):
                 bad = bisect_bad(env, part, release)
                 failures.append({"key": "hang-or-crash:" + common.chash(bad), "case": bad,
                                  "observed": "implementation did not terminate normally (timeout/abort): " + err[-200:],
-                                 "expected_by_spec": spec(bad), "profile": "release" if release else "debug"})
+                                 "expected_by_spec": spec(bad, caseref), "profile": "release" if release else "debug"})
                 continue
             if lm is None:
                 disagreements.append({"stream": "strlib", "error": err})
@@ -212,7 +626,7 @@ def correspond(env, searching=False, model=True):
                 evaluations += 1
                 k = c.split()[0]
                 kinds[k] = kinds.get(k, 0) + 1
-                want = spec(c)
+                want = spec(c, caseref)
                 if a != want:
                     key = "spec:" + c if len(c) < 200 else "spec:" + common.chash(c)
                     if a.startswith("PANIC") and c.startswith(("find", "replace")):
@@ -228,7 +642,7 @@ def correspond(env, searching=False, model=True):
                     else:
                         disagreements.append({"stream": "strlib"})
                 else:
-                    if a not in ("notfound", "str -", "arr -") :
+                    if a not in ("notfound", "str -", "arr -", "num " + NAN_BITS) and not (k in ("upper", "lower") and a == "str " + c.split()[1]):
                         nontrivial.add(common.chash(c))
                     if len(samples) < 4 and evaluations % 7919 == 0:
                         samples.append({"case": c, "output": a})
@@ -239,13 +653,22 @@ def correspond(env, searching=False, model=True):
         "distinct_nontrivial": len(nontrivial),
         "rule": "bounded-exhaustive (haystack,needle) pairs over {a,b} and {a,b,é}, generated periodic / near-periodic needles of 17-40 bytes, "
                 "replace/split/split+join on the same sets, slice over a pool of bounds (0, ±0.5, ±1, huge, NaN, ±inf) x texts with multi-byte "
-                "characters, trim over every White_Space code point, plus a sweep of all code points for the trim whitespace set; each case run on the "
-                "implementation, the extracted model and an independent Python reading of the specification; non-trivial = distinct case with a non-empty / found result",
+                "characters, trim over every White_Space code point, plus a sweep of all code points for the trim whitespace set; to_number on generated "
+                "numerals of every shape of the grammar (empty parts, leading zeros, long parts, exponents of every sign and size), exact half-way points between adjacent "
+                "doubles and the decimals just above/below them (up to ~1100 digits), shortest/17-digit renderings with perturbed digits, the overflow and "
+                "underflow thresholds, integers around 2^53..2^64, and junk (wrong signs, spaces, underscores, non-ASCII digits, near-misses of inf/infinity/nan); "
+                "Display -> to_number round trips of random doubles of every exponent class; to_uppercase/to_lowercase of EVERY scalar value 0..0x10FFFF "
+                "through the built-ins (68 chunk cases) and of generated strings (special-casing characters, final-sigma contexts, all planes); each case run on the "
+                "implementation, the extracted model and an independent Python reading of the specification; every result re-validated as UTF-8 in the harness; "
+                "non-trivial = distinct case with a non-empty / found / non-NaN / changed result",
         "samples": samples,
         "failures": failures,
         "disagreements": disagreements,
         "extra": {"case_kinds": kinds, "exhaustive_find_pairs": exhaustive_find, "exhaustive": False,
-                  "profiles": ["debug"] + (["release"] if env.tier == "thorough" else [])},
+                  "profiles": ["debug"] + (["release"] if env.tier == "thorough" else []),
+                  "case_sweep": case_stats,
+                  "case_python_unicode_version": unicodedata.unidata_version,
+                  "case_python_version_diffs": caseref.diffs if caseref else []},
     }
 
 
@@ -257,8 +680,12 @@ def replay(env, payload):
     if not c:
         print("replay: no concrete case in this file (obligations: %s)" % payload.get("no_longer_checks"))
         return 1
+    caseref = None
+    if c.split()[0] in ("upper", "lower"):
+        caseref = run_case_sweep(env, False, model=False)[0]
     li, lm, err = common.run_both(env, "replay", "strlib", c + "\n", [], False)
-    print("case: %s\nimpl: %s\nmodel: %s\nspec: %s" % (c, li, lm, spec(c)))
-    bad = li is None or li[0] != spec(c) or li != lm
+    want = spec(c, caseref)
+    print("case: %s\nimpl: %s\nmodel: %s\nspec: %s" % (c, li, lm, want))
+    bad = li is None or li[0] != want or li != lm
     print("replay: %s" % ("still failing" if bad else "passes now"))
     return 1 if bad else 0
